@@ -218,7 +218,9 @@ impl Send {
     ) {
         let is_reset = stream.state.is_reset();
         let is_closed = stream.state.is_closed();
-        let is_empty = stream.pending_send.is_empty();
+        // A DATA frame that is being written right now may still bring an
+        // unsent remainder back to the queue: the queue is not flushed yet.
+        let is_empty = stream.pending_send.is_empty() && !self.prioritize.is_in_flight(stream);
         let stream_id = stream.id;
 
         tracing::trace!(
